@@ -84,6 +84,9 @@ func (g *ysonGen) safeString() string {
 	r := g.r
 	switch x := r.Intn(10); {
 	case x < 1:
+		if r.Intn(2) == 0 {
+			return pick(r, goQuoteStrings) // repaired by the JSON-string-literal fix: must survive
+		}
 		return pick(r, prepassStrings) // repaired by 0cf3884e: must survive
 	case x < 6:
 		return pick(r, safeStrings)
@@ -137,6 +140,9 @@ func (g *ysonGen) safeKey() string {
 		return k
 	}
 	if r.Intn(10) == 0 {
+		if r.Intn(2) == 0 {
+			return pick(r, badKeys) // repaired by the JSON-string-literal fix: must survive
+		}
 		return pick(r, prepassStrings)
 	}
 	return pick(r, safeKeys)
